@@ -1,11 +1,15 @@
 ---------------------------- MODULE MC_Pipeline -----------------------------
 EXTENDS Pipeline
-Fl(c, b, l) == [check |-> c, backup |-> b, list |-> l]
+Fl(c, b, l) == [check |-> c, backup |-> b, list |-> l, nl |-> "auto"]
+FlU(c, b, l) == [check |-> c, backup |-> b, list |-> l, nl |-> "unix"]
 MCCombos == {<<"files", Fl(FALSE, FALSE, FALSE)>>, <<"files", Fl(FALSE, TRUE, FALSE)>>,
              <<"files", Fl(FALSE, FALSE, TRUE)>>, <<"files", Fl(TRUE, FALSE, FALSE)>>,
              <<"files", Fl(TRUE, FALSE, TRUE)>>, <<"stdout", Fl(FALSE, FALSE, FALSE)>>,
              <<"json", Fl(FALSE, FALSE, FALSE)>>, <<"checkstyle", Fl(FALSE, FALSE, FALSE)>>,
-             <<"modified", Fl(FALSE, FALSE, FALSE)>>}
+             <<"modified", Fl(FALSE, FALSE, FALSE)>>,
+             <<"files", FlU(FALSE, FALSE, FALSE)>>, <<"files", FlU(TRUE, FALSE, FALSE)>>,
+             <<"files", FlU(TRUE, FALSE, TRUE)>>, <<"json", FlU(FALSE, FALSE, FALSE)>>,
+             <<"stdout", FlU(FALSE, FALSE, FALSE)>>}
 MCCombosSmall == {<<"files", Fl(FALSE, FALSE, FALSE)>>, <<"files", Fl(FALSE, TRUE, FALSE)>>,
                   <<"files", Fl(TRUE, FALSE, FALSE)>>, <<"json", Fl(FALSE, FALSE, FALSE)>>}
 =============================================================================
